@@ -1,1 +1,172 @@
-/-! # C05 — property theorems (stub: not built yet) -/
+import PymocaVerif.Lemmas.ObjGraph3
+import PymocaVerif.Generated.CopyFlags
+/-!
+# C05 — flattening never changes what later flattening produces
+
+Model: `PymocaVerif.Model.ObjGraph` (heap of AST objects, `copy.deepcopy` with memo and pymoca's two
+hooks, `find_class(copy)`, `tree.flatten` as: obtain the requested class / the classes it looks up /
+the symbols it reaches by class path — each through a lookup that copies or not — then write
+*anything* to every object reachable through `own` references from what was obtained).
+
+A request reads the views (unfoldings to any depth `k`, identities erased) of what it obtained; any
+flat model, CasADi model or CLI outcome the real code computes is a function of these.
+
+Hypotheses on the parsed tree (`Region`, `TreeShaped`, `ReqOk`) are the shape of a tree as the
+parser leaves it: references stay inside the tree, no per-instance `__deepcopy__`, a class is held
+by its parent only, nothing below a class holds a reference to that class's parent.  The harness
+checks them on snapshots of the real trees (`wfCheck`, `treeCheck`, `rankCheck` through the driver).
+-/
+namespace PymocaVerif.C05
+open PymocaVerif.ObjGraph
+
+abbrev current : Cfg := PymocaVerif.Generated.CopyFlags.current
+
+/-- Obligation over the flags extracted from the code under test: memo test by id, hooks leave no
+    instance attribute, every lookup on the flatten path copies. -/
+theorem flags_ok : current.Good ∧ current.AllCopy :=
+  ⟨⟨rfl, rfl, rfl⟩, ⟨rfl, rfl, rfl⟩⟩
+
+/-- **Frame.**  With copying lookups a flatten request leaves every object that existed before it
+    exactly as it was — for *every* write the flattening may perform on what it obtained. -/
+theorem frame (cfg : Cfg) (hg : cfg.Good) (hall : cfg.AllCopy) {H : Heap} {R : Nat → Prop}
+    (hR : Region H R) (hts : TreeShaped H R) {root : Nat} (hroot : R root) {r : Req}
+    (hok : ReqOk H R root r) (junk : Nat → Obj → Obj) {H' : Heap}
+    (h : flattenImpl cfg junk H root r = some H') :
+    ∀ o, o < H.length → H'[o]? = H[o]? := by
+  have h' : flattenImpl cfg junk (H ++ []) root r = some H' := by simpa using h
+  obtain ⟨ex, hex⟩ := flattenImpl_frame hg hall hR hts hroot hok [] junk h'
+  intro o ho
+  rw [hex]
+  simp [List.getElem?_append_left ho]
+
+/-- **History independence** (induction over the history).  Any sequence of requests on one tree —
+    repeating a class, different classes, a class used by an earlier one — answers every request
+    with what the same request reads on the initial tree, whatever the earlier requests wrote. -/
+theorem history_independent (cfg : Cfg) (hg : cfg.Good) (hall : cfg.AllCopy) {H : Heap} {R : Nat → Prop}
+    (hR : Region H R) (hts : TreeShaped H R) {root : Nat} (hroot : R root) (k : Nat) :
+    ∀ (reqs : List (Req × (Nat → Obj → Obj))), (∀ q ∈ reqs, ReqOk H R root q.1) →
+      runSeq cfg k root H reqs = reqs.map fun q => flattenResult cfg k H root q.1 := by
+  have gen : ∀ (reqs : List (Req × (Nat → Obj → Obj))) (e : Heap), (∀ q ∈ reqs, ReqOk H R root q.1) →
+      runSeq cfg k root (H ++ e) reqs = reqs.map fun q => flattenResult cfg k H root q.1 := by
+    intro reqs
+    induction reqs with
+    | nil => intro e _; rfl
+    | cons q reqs ih =>
+      intro e hok
+      obtain ⟨r, junk⟩ := q
+      have hq : ReqOk H R root r := hok (r, junk) List.mem_cons_self
+      have hrest : ∀ q' ∈ reqs, ReqOk H R root q'.1 := fun q' hq' => hok q' (List.mem_cons_of_mem _ hq')
+      simp only [runSeq, List.map_cons]
+      have e1 := flattenResult_ext hg hall hR hts hroot hq k e
+      have e0 := flattenResult_ext hg hall hR hts hroot hq k []
+      simp only [List.append_nil] at e0
+      rw [e1, ← e0]
+      congr 1
+      cases hf : flattenImpl cfg junk (H ++ e) root r with
+      | none => exact ih e hrest
+      | some H' =>
+        obtain ⟨ex, hex⟩ := flattenImpl_frame hg hall hR hts hroot hq e junk hf
+        simp only
+        rw [hex, List.append_assoc]
+        exact ih (e ++ ex) hrest
+  intro reqs hok
+  have := gen reqs [] hok
+  simpa using this
+
+/-- **The compiler CLI is compositional.**  `tools.compiler.main` parses once and serves every `-m`
+    from the same tree: each model gets the outcome it gets when it is requested alone. -/
+theorem cli_compositional (cfg : Cfg) (hg : cfg.Good) (hall : cfg.AllCopy) {H : Heap} {R : Nat → Prop}
+    (hR : Region H R) (hts : TreeShaped H R) {root : Nat} (hroot : R root) (k : Nat)
+    (models : List (Req × (Nat → Obj → Obj))) (hok : ∀ q ∈ models, ReqOk H R root q.1) :
+    runSeq cfg k root H models = (models.map fun q => runSeq cfg k root H [q]).flatten := by
+  rw [history_independent cfg hg hall hR hts hroot k models hok]
+  have : ∀ q ∈ models, runSeq cfg k root H [q] = [flattenResult cfg k H root q.1] := by
+    intro q hq
+    have := history_independent cfg hg hall hR hts hroot k [q]
+      (fun q' hq' => by rw [List.mem_singleton.mp hq']; exact hok q hq)
+    simpa using this
+  rw [List.map_congr_left this]
+  clear this hok
+  induction models with
+  | nil => rfl
+  | cons q models ih => simp [ih]
+
+/-- The statements above for the flags the code has now. -/
+theorem history_independent_current {H : Heap} {R : Nat → Prop}
+    (hR : Region H R) (hts : TreeShaped H R) {root : Nat} (hroot : R root) (k : Nat)
+    (reqs : List (Req × (Nat → Obj → Obj))) (hok : ∀ q ∈ reqs, ReqOk H R root q.1) :
+    runSeq current k root H reqs = reqs.map fun q => flattenResult current k H root q.1 :=
+  history_independent current flags_ok.1 flags_ok.2 hR hts hroot k reqs hok
+
+/-! ## a concrete tree: the hypotheses are satisfiable, and without copying the statement fails -/
+
+/-- `Tree { class A { x; class B }, class C { c } }` -/
+def demo : Heap :=
+  [ { kind := .cls, name := "", label := "Tree", fields := [.own 1, .own 4], hook := none },
+    { kind := .cls, name := "A", label := "A", fields := [.own 2, .own 3, .par 0], hook := none },
+    { kind := .sym, name := "x", label := "x", fields := [], hook := none },
+    { kind := .cls, name := "B", label := "B", fields := [.par 1], hook := none },
+    { kind := .cls, name := "C", label := "C", fields := [.own 5, .par 0], hook := none },
+    { kind := .sym, name := "c", label := "c", fields := [], hook := none } ]
+
+def demoRank : List Nat := [0, 1, 2, 2, 1, 2]
+
+def scribble : Nat → Obj → Obj := fun _ o => { o with label := "scribbled" }
+
+def reqA : Req := { path := ["A"], inner := [4], consts := [5] }
+def reqB : Req := { path := ["A", "B"], inner := [], consts := [] }
+
+theorem demo_region : Region demo (fun a => a < demo.length) := region_of_wfCheck (by decide +kernel)
+theorem demo_tree : TreeShaped demo (fun a => a < demo.length) := treeShaped_of_check (by decide +kernel)
+theorem demo_ok (r : Req) (h : ∀ i ∈ r.inner ++ r.consts, i < demo.length) :
+    ReqOk demo (fun a => a < demo.length) 0 r :=
+  reqOk_of_rank (d := demoRank) (by decide +kernel) 0 r h
+
+example : ∃ H', flattenImpl current scribble demo 0 reqA = some H' ∧
+    ∀ o, o < demo.length → H'[o]? = demo[o]? := by
+  have hs : (flattenImpl current scribble demo 0 reqA).isSome = true := by decide +kernel
+  cases h1 : flattenImpl current scribble demo 0 reqA with
+  | none => rw [h1] at hs; cases hs
+  | some H' =>
+    exact ⟨H', rfl, frame current flags_ok.1 flags_ok.2 demo_region demo_tree (by decide)
+      (demo_ok reqA (by decide)) scribble h1⟩
+
+example : runSeq current 3 0 demo [(reqA, scribble), (reqB, scribble), (reqA, scribble)] =
+    [flattenResult current 3 demo 0 reqA, flattenResult current 3 demo 0 reqB, flattenResult current 3 demo 0 reqA] :=
+  history_independent_current demo_region demo_tree (by decide) 3 _
+    (by
+      intro q hq
+      simp only [List.mem_cons, List.mem_nil_iff, or_false] at hq
+      rcases hq with h | h | h <;> subst h <;> exact demo_ok _ (by decide))
+
+example : runSeq current 2 0 demo [(reqB, scribble), (reqA, scribble)] =
+    runSeq current 2 0 demo [(reqB, scribble)] ++ runSeq current 2 0 demo [(reqA, scribble)] := by
+  have := cli_compositional current flags_ok.1 flags_ok.2 demo_region demo_tree (root := 0) (by decide) 2
+    [(reqB, scribble), (reqA, scribble)]
+    (by
+      intro q hq
+      simp only [List.mem_cons, List.mem_nil_iff, or_false] at hq
+      rcases hq with h | h <;> subst h <;> exact demo_ok _ (by decide))
+  simpa using this
+
+/-- the discipline before the fix: the class looked up by `flatten` is not copied -/
+def noRootCopy : Cfg := { current with rootCopy := false }
+
+/-- **Without the copy the statement is false**: one request for `A` rewrites the tree's own `A`
+    (object 1) and its symbol, so a second request reads something else than a fresh one. -/
+theorem counterexample_nocopy :
+    (match flattenImpl noRootCopy scribble demo 0 reqB with
+     | some H' => decide (H'[3]? ≠ demo[3]?) && decide (viewLabels H' 3 1 ≠ viewLabels demo 3 1)
+     | none => false) = true := by
+  decide +kernel
+
+/-- the discipline before commit e37f466: symbols reached by a class path are not copied -/
+def noConstCopy : Cfg := { current with constCopy := false }
+
+theorem counterexample_constref :
+    (match flattenImpl noConstCopy scribble demo 0 reqA with
+     | some H' => decide (H'[5]? ≠ demo[5]?) && decide (H'[1]? = demo[1]?)
+     | none => false) = true := by
+  decide +kernel
+
+end PymocaVerif.C05
